@@ -103,7 +103,7 @@ def nontrivial(impl):
 
 def run(tier, seed, drv):
     return msuite.standard_run(PID, 'C10', TAGS, tier, seed, drv, [family, lambda r: gen.gen_scenario(r, PROFILE), close_race, handover_race],
-                               nontrivial=nontrivial, rule=RULE, n_quick=300)
+                               nontrivial=nontrivial, rule=RULE, n_quick=300, optimized=100 if tier == 'quick' else 1000)
 
 
 def replay(data, drv):
